@@ -159,6 +159,7 @@ func runC03(r *vf.Run) {
 		c03TruthTable(r)
 	}
 	c03Sequences(r)
+	racePass(r)
 	r.Floor("cache hits observed", r.GetCount("cache_hits") > 0)
 	r.Floor("evictions observed", r.GetCount("evictions_observed") > 0)
 	r.Floor(">= 100 distinct truth tables in the pool", r.Replay() || r.GetCount("truth_tables_distinct") >= 100)
